@@ -3,7 +3,6 @@
 package main
 
 import (
-	"encoding/json"
 	"fmt"
 	"iter"
 	"math"
@@ -14,12 +13,8 @@ import (
 	"github.com/NethermindEth/juno/core"
 	"github.com/NethermindEth/juno/core/felt"
 	"github.com/NethermindEth/juno/core/pending"
-	rpcv10 "github.com/NethermindEth/juno/rpc/v10"
-	rpcv8 "github.com/NethermindEth/juno/rpc/v8"
-	rpcv9 "github.com/NethermindEth/juno/rpc/v9"
 	junosync "github.com/NethermindEth/juno/sync"
 	"github.com/NethermindEth/juno/sync/preconfirmed"
-	"github.com/NethermindEth/juno/utils/log"
 	"verif/harness/lib"
 )
 
@@ -167,6 +162,8 @@ func errClass(err error) string {
 	switch {
 	case strings.Contains(s, "key not found"), strings.Contains(s, "Key not found"):
 		return "notfound"
+	case strings.Contains(s, "injected fault"):
+		return "io"
 	case strings.Contains(s, "pruned"), strings.Contains(s, "retention floor"):
 		return "pruned"
 	case strings.Contains(s, "continuation token is invalid"):
@@ -195,6 +192,7 @@ type Q struct {
 	Rpc     bool   `json:"rpc,omitempty"`
 	Api     string `json:"api,omitempty"` // with Rpc: "" = v10, "v9", "v8" (one address at most; v8: no pre-confirmed blocks)
 	Pre     []Plan `json:"pre,omitempty"`
+	PreBack int    `json:"pre_back,omitempty"` // the pre-confirmed chain was built on block head-PreBack (its first block is head-PreBack+1)
 	Tok     string `json:"token,omitempty"`   // start from this (forged) continuation token instead of the first page
 	L1      int    `json:"l1_head,omitempty"` // the node's L1 head (block id `l1_accepted`; rpc v9 / v10)
 }
@@ -207,6 +205,8 @@ func (q Q) bounds(head int) (from, to uint64) {
 	switch q.FromTag {
 	case "l1_accepted":
 		from = uint64(q.L1)
+	case "omitted":
+		from = 0
 	case "latest":
 		from = uint64(head)
 	case "pre_confirmed":
@@ -220,7 +220,7 @@ func (q Q) bounds(head int) (from, to uint64) {
 	switch q.ToTag {
 	case "l1_accepted":
 		to = uint64(q.L1)
-	case "latest":
+	case "latest", "omitted":
 		to = uint64(head)
 	case "pre_confirmed":
 		to = sentinel
@@ -243,6 +243,9 @@ func (q Q) bounds(head int) (from, to uint64) {
 func (q Q) specRange(head int) (lo, hi int, empty bool) {
 	from, to := q.bounds(head)
 	top := head + len(q.Pre)
+	if len(q.Pre) > 0 && (to == sentinel || to > uint64(head)) {
+		top = head - q.PreBack + len(q.Pre)
+	}
 	if q.Tok != "" {
 		var b, p uint64
 		fmt.Sscanf(q.Tok, "%d-%d", &b, &p)
@@ -298,7 +301,7 @@ func (f *fakeSync) PreConfirmedChain() (preconfirmed.ChainReader, error) {
 }
 
 // mkPre builds the pre-confirmed blocks of a query on top of the current head.
-func (w *World) mkPre(plans []Plan) []*pending.PreConfirmed {
+func (w *World) mkPre(plans []Plan, back int) []*pending.PreConfirmed {
 	var out []*pending.PreConfirmed
 	for i, plan := range plans {
 		var txs []core.Transaction
@@ -308,31 +311,11 @@ func (w *World) mkPre(plans []Plan) []*pending.PreConfirmed {
 			txs = append(txs, tx)
 			rcs = append(rcs, mkReceipt(tx, evs, uint64(1000+i)))
 		}
-		hdr := &core.Header{Number: uint64(len(w.Chain) + i), EventsBloom: core.EventsBloom(rcs),
+		hdr := &core.Header{Number: uint64(len(w.Chain) - back + i), EventsBloom: core.EventsBloom(rcs),
 			TransactionCount: uint64(len(txs)), ProtocolVersion: "0.14.0"}
 		out = append(out, &pending.PreConfirmed{Block: &core.Block{Header: hdr, Transactions: txs, Receipts: rcs}})
 	}
 	return out
-}
-
-func (w *World) blockID(tag string, num int) (*rpcv10.BlockID, error) {
-	var id rpcv10.BlockID
-	switch tag {
-	case "l1_accepted":
-		id = rpcv10.BlockIDL1Accepted()
-	case "latest":
-		id = rpcv10.BlockIDLatest()
-	case "pre_confirmed":
-		id = rpcv10.BlockIDPreConfirmed()
-	case "hash":
-		if num >= len(w.Bundles) {
-			return nil, fmt.Errorf("harness: no block %d to take the hash of", num)
-		}
-		id = rpcv10.BlockIDFromHash(w.Bundles[num].Block.Hash)
-	default:
-		id = rpcv10.BlockIDFromNumber(uint64(num))
-	}
-	return &id, nil
 }
 
 // realPage asks the real code for one page. tok "" = first page.
@@ -411,166 +394,3 @@ func realPage(n *Node, w *World, q Q, pre []*pending.PreConfirmed, tok string) (
 	return pg
 }
 
-// rpcEvents asks starknet_getEvents of the chosen API version and converts the answer to
-// FilteredEvents. v8 / v9 do not return transaction and event indexes: they are recovered from the
-// transaction hash and the event's data (the generator writes the event index into data[1]).
-func (w *World) rpcEvents(n *Node, q Q, pre []*pending.PreConfirmed, tok string, addrs []felt.Address, keys [][]felt.Felt) ([]blockchain.FilteredEvent, string, error) {
-	rpcErr := func(code int, msg string, data any) error { return fmt.Errorf("rpc error %d %s %v", code, msg, data) }
-	locate := func(block uint64, hasNumber bool, txHash *felt.Felt, ev *core.Event) (uint64, uint, uint) {
-		var blk *core.Block
-		if hasNumber && int(block) < len(w.Bundles) {
-			blk = w.Bundles[block].Block
-		} else {
-			for i, p := range pre {
-				if !hasNumber || int(block) == len(w.Bundles)+i {
-					for _, rc := range p.Block.Receipts {
-						if rc.TransactionHash.Equal(txHash) {
-							blk, block = p.Block, uint64(len(w.Bundles)+i)
-						}
-					}
-				}
-			}
-		}
-		if blk == nil {
-			return block, 9999, 9999
-		}
-		for t, rc := range blk.Receipts {
-			if rc.TransactionHash.Equal(txHash) {
-				if ev != nil && len(ev.Data) == 2 {
-					return block, uint(t), uint(ev.Data[1].Uint64())
-				}
-				return block, uint(t), 9999
-			}
-		}
-		return block, 9999, 9999
-	}
-	switch q.Api {
-	case "v9":
-		h := rpcv9.New(n.BC, &fakeSync{blocks: pre}, nil, log.NewNopZapLogger()).WithFilterLimit(uint(q.Limit))
-		id := func(tag string, num int) (*rpcv9.BlockID, error) {
-			var b rpcv9.BlockID
-			switch tag {
-			case "l1_accepted":
-				b = rpcv9.BlockIDL1Accepted()
-			case "latest":
-				b = rpcv9.BlockIDLatest()
-			case "pre_confirmed":
-				b = rpcv9.BlockIDPreConfirmed()
-			case "hash":
-				if num >= len(w.Bundles) {
-					return nil, fmt.Errorf("harness: no block %d", num)
-				}
-				b = rpcv9.BlockIDFromHash(w.Bundles[num].Block.Hash)
-			default:
-				b = rpcv9.BlockIDFromNumber(uint64(num))
-			}
-			return &b, nil
-		}
-		fromID, err := id(q.FromTag, q.From)
-		if err != nil {
-			return nil, "", err
-		}
-		toID, err := id(q.ToTag, q.To)
-		if err != nil {
-			return nil, "", err
-		}
-		var addr *felt.Address
-		if len(addrs) > 0 {
-			addr = &addrs[0]
-		}
-		chunk, rerr := h.Events(rpcv9.EventArgs{
-			EventFilter:       rpcv9.EventFilter{FromBlock: fromID, ToBlock: toID, Address: addr, Keys: keys},
-			ResultPageRequest: rpcv9.ResultPageRequest{ContinuationToken: tok, ChunkSize: uint64(q.Chunk)},
-		})
-		if rerr != nil {
-			return nil, "", rpcErr(rerr.Code, rerr.Message, rerr.Data)
-		}
-		var out []blockchain.FilteredEvent
-		for _, ee := range chunk.Events {
-			ev := (*core.Event)(ee.Event)
-			b, t, i := locate(ee.BlockNumber, true, ee.TransactionHash, ev)
-			out = append(out, blockchain.FilteredEvent{Event: ev, BlockNumber: b, BlockHash: ee.BlockHash,
-				TransactionHash: ee.TransactionHash, TransactionIndex: t, EventIndex: i})
-		}
-		return out, chunk.ContinuationToken, nil
-	case "v8":
-		h := rpcv8.New(n.BC, &fakeSync{}, nil, log.NewNopZapLogger()).WithFilterLimit(uint(q.Limit))
-		id := func(tag string, num int) (*rpcv8.BlockID, error) {
-			var b rpcv8.BlockID
-			switch tag {
-			case "latest":
-				if err := json.Unmarshal([]byte(`"latest"`), &b); err != nil {
-					return nil, err
-				}
-			case "pre_confirmed":
-				b = rpcv8.BlockIDPending()
-			case "hash":
-				if num >= len(w.Bundles) {
-					return nil, fmt.Errorf("harness: no block %d", num)
-				}
-				b = rpcv8.BlockIDFromHash(w.Bundles[num].Block.Hash)
-			default:
-				b = rpcv8.BlockIDFromNumber(uint64(num))
-			}
-			return &b, nil
-		}
-		fromID, err := id(q.FromTag, q.From)
-		if err != nil {
-			return nil, "", err
-		}
-		toID, err := id(q.ToTag, q.To)
-		if err != nil {
-			return nil, "", err
-		}
-		var addr *felt.Felt
-		if len(addrs) > 0 {
-			a := felt.Felt(addrs[0])
-			addr = &a
-		}
-		chunk, rerr := h.Events(rpcv8.EventsArg{
-			EventFilter:       rpcv8.EventFilter{FromBlock: fromID, ToBlock: toID, Address: addr, Keys: keys},
-			ResultPageRequest: rpcv8.ResultPageRequest{ContinuationToken: tok, ChunkSize: uint64(q.Chunk)},
-		})
-		if rerr != nil {
-			return nil, "", rpcErr(rerr.Code, rerr.Message, rerr.Data)
-		}
-		var out []blockchain.FilteredEvent
-		for _, ee := range chunk.Events {
-			ev := &core.Event{From: ee.Event.From, Keys: ee.Event.Keys, Data: ee.Event.Data}
-			var bn uint64
-			if ee.BlockNumber != nil {
-				bn = *ee.BlockNumber
-			}
-			b, t, i := locate(bn, ee.BlockNumber != nil, ee.TransactionHash, ev)
-			out = append(out, blockchain.FilteredEvent{Event: ev, BlockNumber: b, BlockHash: ee.BlockHash,
-				TransactionHash: ee.TransactionHash, TransactionIndex: t, EventIndex: i})
-		}
-		return out, chunk.ContinuationToken, nil
-	}
-	h := rpcv10.New(n.BC, &fakeSync{blocks: pre}, nil, log.NewNopZapLogger()).WithFilterLimit(uint(q.Limit))
-	fromID, err := w.blockID(q.FromTag, q.From)
-	if err != nil {
-		return nil, "", err
-	}
-	toID, err := w.blockID(q.ToTag, q.To)
-	if err != nil {
-		return nil, "", err
-	}
-	chunk, rerr := h.Events(&rpcv10.EventArgs{
-		EventFilter:       rpcv10.EventFilter{FromBlock: fromID, ToBlock: toID, Address: rpcv10.AddressList(addrs), Keys: keys},
-		ResultPageRequest: rpcv10.ResultPageRequest{ContinuationToken: tok, ChunkSize: uint64(q.Chunk)},
-	})
-	if rerr != nil {
-		return nil, "", rpcErr(rerr.Code, rerr.Message, rerr.Data)
-	}
-	var out []blockchain.FilteredEvent
-	for _, ee := range chunk.Events {
-		var ev *core.Event
-		if ee.Event != nil {
-			ev = (*core.Event)(ee.Event)
-		}
-		out = append(out, blockchain.FilteredEvent{Event: ev, BlockNumber: ee.BlockNumber, BlockHash: ee.BlockHash,
-			TransactionHash: ee.TransactionHash, TransactionIndex: ee.TransactionIndex, EventIndex: ee.EventIndex})
-	}
-	return out, chunk.ContinuationToken, nil
-}
